@@ -476,6 +476,7 @@ func (c *Ctx) assign(l ast.Expr, v Value, s *State) {
 			ref, st, sv := c.walkPath(s, base, t, idx[:len(idx)-1], x)
 			f := st.Underlying().(*types.Struct).Field(idx[len(idx)-1])
 			if ref != "" {
+				c.guardCheck(s, st, f, x, "write")
 				c.writeField(s, ref, st, f, v)
 				return
 			}
